@@ -13,7 +13,9 @@ RULE = ("Hypothesis-generated AR models: order 1..10 (0 and 11 for "
         "rejection), normal coefficients rescaled to sum|phi| = U(0, 1.5) "
         "with any sign, mean and initial value N(0,10)-like, series length "
         "in {0,1,2,5,50,500} (thorough 5000), NaN probability 0.1 including "
-        "the first `order` steps, default and explicit sim_mean/sim_ini, "
+        "the first `order` steps, one long series in three with a run of "
+        "99..257 or n/2 missing values (often with slowly decaying "
+        "coefficients such as 0.99, 1.0, [0.6, 0.39]), default and explicit sim_mean/sim_ini, "
         "contiguous and strided inputs, scalar coefficient for order 1. "
         "Oracle: direct Python recursion y[t]-m = sum_k phi[k](y[t-k]-m) + "
         "e[t] with all lags initialised to ini-m and NaN innovations as 0; "
@@ -48,6 +50,18 @@ def cases(draw, tier):
         rng = np.random.RandomState(seed)
         innov = rng.normal(size=n).tolist()
         nanpos = np.where(rng.uniform(size=n) < 0.1)[0].tolist()
+    if n >= 127 and draw(st.integers(0, 2)) == 0:
+        # one long run of missing values (around 100, 256, half the series),
+        # at the start or further on, often with slowly decaying coefficients
+        L = min(draw(st.sampled_from([99, 100, 101, 102, 150, 255, 256, 257,
+                                      n // 2])), n - 2)
+        s0 = draw(st.sampled_from([0, 0, 1, 7, n - L - 1, (n - L) // 2]))
+        s0 = max(0, min(s0, n - L))
+        nanpos = sorted(set(nanpos) | set(range(s0, s0 + L)))
+        if draw(st.integers(0, 2)) > 0:
+            phi = draw(st.sampled_from([[0.99], [1.0], [0.6, 0.39], [1.02],
+                                        [0.5, 0.5], [-1.0], [0.999],
+                                        [0.2, 0.3, 0.49], [0.0, 1.0]]))
     mean = 10 * draw(norm)
     ini = draw(st.one_of(st.none(), norm.map(lambda v: 10 * v)))
     if n <= 50 and draw(st.integers(0, 4)) == 0:
@@ -128,6 +142,10 @@ def oracle(case):
         e[i] = np.nan
     n = len(e)
     labels = [f"order:{p}", f"n:{n}"]
+    if len(case["nanpos"]) >= 99 and any(
+            case["nanpos"][i + 98] == case["nanpos"][i] + 98
+            for i in range(len(case["nanpos"]) - 98)):
+        labels.append("missing-run>=99")
     params = phi.copy()
     if p == 1 and case["scalar_param"]:
         params = float(phi[0])
